@@ -84,6 +84,7 @@ class Recorder:
                     bare = wk[len(self.prefix):] if wk.startswith(self.prefix) else b"?" + wk
                     sent.append([si + 1, self._id(self.kid, bare)])
         found = []
+        shapes = []       # per found entry: 1 = a (value, cas token) pair, 0 = a plain value
         if kind == "read":
             d = res if isinstance(res, dict) else ({keys[0][1] if isinstance(keys[0], tuple) else keys[0]: res} if res is not None else {})
             for rk, rv in d.items():
@@ -92,7 +93,9 @@ class Recorder:
                     continue
                 vv = int(val[1:]) if isinstance(val, bytes) and val[:1] == b"v" and val[1:].isdigit() else -1
                 found.append([self._id(self.kid, rk), vv])
-        return {"e": "op", "op": op, "kind": kind, "v": v, "items": self.items(keys), "placed": placed, "sent": sent, "found": found}
+                shapes.append(1 if isinstance(rv, tuple) and len(rv) == 2 and rv[1] is not None else 0)
+        return {"e": "op", "op": op, "kind": kind, "v": v, "items": self.items(keys), "placed": placed, "sent": sent, "found": found,
+                "shapes": shapes, "withcas": op in ("gets", "gets_many", "gats")}
 
 
 def make_logging_hasher(log, table=None):
